@@ -539,7 +539,8 @@ func main() {
 			a := swapImport(f, "sync", syncImport, "sync")
 			b := swapImport(f, "github.com/sasha-s/go-deadlock", dlockImport, "deadlock")
 			if !a && !b {
-				fail("%s: asked to swap sync imports but the file imports neither sync nor go-deadlock", rel)
+				// nothing to expose to the explorer in this file (any longer): not an error, the check's oracles decide
+				fmt.Fprintf(os.Stderr, "[instr] note: %s imports neither sync nor go-deadlock; left as it is\n", rel)
 			}
 		}
 		if in(builderFiles, rel) {
@@ -554,7 +555,7 @@ func main() {
 				return true
 			})
 			if n == 0 {
-				fail("%s: asked to replace strings.Builder but none found", rel)
+				fmt.Fprintf(os.Stderr, "[instr] note: %s uses no strings.Builder; left as it is\n", rel)
 			}
 			r.usedRT = true
 		}
